@@ -2,6 +2,7 @@
 use crate::Args;
 pub mod c03;
 pub mod c07;
+pub mod c11;
 pub mod c12;
 pub mod c13;
 pub mod c16;
@@ -27,6 +28,8 @@ pub fn dispatch(_cmd: &str, _a: &Args) -> bool {
         "c03-suite" => c03::suite(_a),
         "c06-suite" => c03::suite_errors(_a),
         "c07" => c07::run(_a),
+        "c11" => c11::run(_a),
+        "c11-child" => c11::child(_a),
         "c12" => c12::run(_a),
         "c13" => c13::run(_a),
         "c16" => c16::run(_a),
